@@ -127,7 +127,7 @@ func (b *c03Batch) describe() map[string]interface{} {
 		ls[i] = l.Text()
 	}
 	return map[string]interface{}{"batch_lines": ls, "concurrent": b.conc, "GOMAXPROCS": b.procs, "sched_pressure": b.pressure, "race_build": b.race,
-		"how": "write the generated projects (replay.projects) with proj.Write, put batch_lines into a file in the root, run `hermes2go -module batch -batch <file> -workingdir <root> -concurrent <n>` from the root and compare the sha256 of every file below project/*/RESULT with the run of each line alone"}
+		"how": "write the generated projects (replay.projects) with proj.Write, put batch_lines into a file in the root (replay.batch_file_quoted is the file as written: separators, line ends and empty lines vary), start replay.command (`hermes2go -module batch -batch <file> [-workingdir <root>] -concurrent <n>`, options in any order) in the root and compare the sha256 of every file below project/*/RESULT with the run of each line alone"}
 }
 
 func checkC03(c *vh.Ctx) {
@@ -144,11 +144,13 @@ func checkC03(c *vh.Ctx) {
 			raceBin = ""
 		}
 	}
-	c.Res.Rule = "every batch (lines drawn with repetition from the distinct lines of the generated projects, shuffled, concurrency 1..16, GOMAXPROCS in {1,2,16}, scheduling pressure on/off, normal and -race build in the thorough tier): sha256 of every result file == sha256 of the solo run of the same line, file set == union of the lines' own files, inputs unchanged, race detector silent; sessions mixing parameter folders / per-project tables / absent optional files: every conflict pair in both orders at concurrency 1 and 2 plus random mixes, outcome (success / reported error and message) and files of every line == its solo run; evaluations = (batch, line) pairs + pool and dispatcher correspondence cases; distinct = distinct (line key, concurrency, GOMAXPROCS, pressure, build) combinations"
+	c.Res.Rule = "every batch (lines drawn with repetition from the distinct lines of the generated projects, shuffled, concurrency 1..16, GOMAXPROCS in {1,2,16}, scheduling pressure on/off, normal and -race build in the thorough tier): sha256 of every result file == sha256 of the solo run of the same line, file set == union of the lines' own files, inputs unchanged, race detector silent; sessions mixing parameter folders / per-project tables / absent optional files: every conflict pair in both orders at concurrency 1 and 2 plus random mixes, outcome (success / reported error and message) and files of every line == its solo run; every batch file in a drawn shape (blank / tab / several blanks between the tokens, leading and trailing blanks, LF / CRLF / mixed line ends, empty lines, with and without final newline) and every command line in a drawn option order (-workingdir given or implied by the batch file's folder, absolute or relative batch path, -logoutput); extra key=value arguments on the command line (0, 2, 3, 9, 10 of them at concurrency 1, 2, 3, 8), runs described by arguments only, -module single with project/modinp.txt (with and without -locid), -lines N and -lines a-end: files == the same line alone through a one-line batch file with the same extra arguments; lines using resultfolder= / gwId= / soilId= / fileExtension= / no poligonID: files == those of the equivalent line that describes the same run without the key; evaluations = (batch, line) pairs + pool and dispatcher correspondence cases; distinct = distinct (line key, concurrency, GOMAXPROCS, pressure, build) combinations"
 
+	batchStyleSeed = c.Seed // shape of every batch file and command line: kern_dispatch_cmdline.go
 	checkConcurrencyFacts(c)
 	poolCorrespondence(c)
-	rerunStage(c, bin, "C03") // the same line gives the same files whatever an earlier run left in the result folder
+	rerunStage(c, bin, "C03")     // the same line gives the same files whatever an earlier run left in the result folder
+	cmdlineStage(c, bin, raceBin) // extra arguments on the command line, runs from arguments only, single mode, -lines N / a-end
 
 	// ---------------------------------------------------------------- projects, roots, solo runs
 	nProj := c.N(8, 14)
@@ -187,7 +189,7 @@ func checkC03(c *vh.Ctx) {
 			// the generator is supposed to produce valid projects; a line that fails alone is no
 			// subject of C03 (C11 covers failing lines) — counted, not used
 			c.Count("solo:unusable")
-			c.Note("line %q not usable as a C03 baseline: solo run: %s (%d files)", l.Text(), l.SoloErr, len(l.Solo))
+			c.Note("line %q not usable as a C03 baseline: solo run: %s (%d files) [%s]", l.Text(), l.SoloErr, len(l.Solo), l.SoloHow)
 			continue
 		}
 		okLines = append(okLines, l)
@@ -305,10 +307,12 @@ func checkC03(c *vh.Ctx) {
 		if b.pressure {
 			c.Count("pressure:on")
 		}
+		countBatchShape(c, o)
 		payload := b.describe()
 		payload["projects"] = projJSON()
 		payload["stdout_tail"] = tail(o.Stdout, 1500)
 		payload["stderr_tail"] = tail(o.Stderr, 3000)
+		payload["command"], payload["batch_file_quoted"], payload["batch_file_shape"] = o.Cmd, strconv.Quote(o.BatchText), o.BatchShape
 		for _, l := range b.lines {
 			c.Eval()
 			c.Nontrivial(fmt.Sprintf("%s|c%d|p%d|s%v|%s", l.Key, b.conc, b.procs, b.pressure, build))
